@@ -213,6 +213,28 @@ def _():
     t = _match_table("dna_only_base_to_bits", None, None, _conv_opt)
     return None if t is None else _lean_list(t)
 
+@item("hashnArms", "List Nat", _lean_list(_D2B), "dna_string.rs from_acgt_bytes_hashn: the inline match on the byte as a 256-entry table (255 = the hashed arm)")
+def _():
+    t = src("dna_string.rs")
+    m = re.search(r"pub fn from_acgt_bytes_hashn\(.*?let v = match c \{(.*?)\n\s*_ => \{", t, re.S)
+    if not m:
+        return None
+    table = [255] * 256
+    for line in m.group(1).strip().split("\n"):
+        line = line.strip().rstrip(",")
+        if not line:
+            continue
+        lhs, _, rhs = line.partition("=>")
+        v = _conv_u8(rhs.strip())
+        if v is None:
+            return None
+        for alt in lhs.split("|"):
+            mm = re.fullmatch(r"b'(.)'", alt.strip())
+            if not mm:
+                return None
+            table[ord(mm.group(1))] = v
+    return _lean_list(table)
+
 _BTA = [88] * 256
 _BTA[0], _BTA[1], _BTA[2], _BTA[3] = 65, 67, 71, 84
 @item("bitsToAscii", "List Nat", _lean_list(_BTA), "lib.rs bits_to_ascii as a 256-entry table")
